@@ -8,6 +8,9 @@ Families of executions (all validated by spec/containers/HandOffTrace.tla agains
   conc        seeded concurrent scenarios, start states (pre-filled buffer of 1 / 2^k elements, pending or installed value),
               yield or busy-wait start barrier; the same under ThreadSanitizer
   burst-conc  a whole burst between two consumer polls (consumer held by the driver)
+  obs         observers contending with observers: 1..4 reader threads spinning on size() / empty() (spin barrier) while the consumer
+              polls - with no producer at all (drained buffer: every answer must be "empty" / 0) and with producers that throttle
+              themselves with size() while the consumer runs the poll loop  if (!empty()) consume();  every call recorded (run-length)
 Payload types: int / 8-byte pair, std::string (small, heap, NUL and >= 0x80 bytes, long), 24-byte POD, 64-byte alignas(64) POD (value),
 unique_ptr (buffer), a type whose copy throws.  Mutations the check was tried against: selftest/mutations/C12/*.diff."""
 import json, os, random, copy, re
@@ -50,7 +53,13 @@ def model_checking(chk, quick):
         ("HandOffMC", "HandOffMC_buf_strict", "holds", "documented take-all behaviour refines the statement + same invariants"),
         ("HandOffMC", "HandOffMC_val", "holds", "contract (statement) => seen assigned, in order, true iff newer, last obtained"),
         ("HandOffMC", "HandOffMC_val_strict", "holds", "documented always-newest behaviour refines the statement + same invariants"),
+        ("HandOffMC", "HandOffMC_obs", "holds", "observer laws: size()/empty() runs by any thread are read-only, answer 0 / empty on a drained buffer (statement)"),
+        ("HandOffMC", "HandOffMC_obs_strict", "holds", "observer laws + poll loop (empty() = false / size() > 0, then consume() is non-empty) under the documented behaviour"),
         ("HandOffMech", "HandOffMech_code" + th, "holds", "TransactionalBuffer.h as written: refines contract, NoRace, lock annotations"),
+        ("HandOffMech", "HandOffMech_readers" + th, "holds", "TransactionalBuffer.h as written with 2-3 reader threads calling size()/empty() concurrently with producers and consumer: refines contract, NoRace"),
+        ("HandOffMech", "HandOffMech_readers_noprod", "holds", "TransactionalBuffer.h as written, no producer, 3 readers + polling consumer: refines contract (every answer empty / 0)"),
+        ("HandOffMech", "HandOffMech_trylock_refine", "refuted", "negative control empty() with try_to_lock answering 'not empty' when the mutex is taken: refinement must fail"),
+        ("HandOffMech", "HandOffMech_trylock_noprod_refine", "refuted", "negative control empty() with try_to_lock, no producer at all (the holder is another observer): refinement must fail"),
         ("HandOffMech", "HandOffMech_nolock_race", "refuted", "negative control push_back without lock_guard: NoRace must fail"),
         ("HandOffMech", "HandOffMech_nolock_refine", "refuted", "negative control push_back without lock_guard: refinement must fail"),
         ("HandOffValueMech", "HandOffValueMech_atomic" + th, "holds", "TransactionalValue.h as written (std::atomic<bool> newValue tested before locking): refines contract, NoRace"),
@@ -214,6 +223,74 @@ def burst_conc_scenarios(rnd, quick):
     return out
 
 
+def obs_scenarios(rnd, quick):
+    """Observers contending with observers (TransactionalBuffer; TransactionalValue has no accessor that several threads may
+    call at once: get()/ref() take no lock and belong to the one consumer).  R = 1..4 reader threads, P = 0 (no producer at
+    all: drained buffer, mutators quiescent) or 1..2 producers throttled by size()."""
+    out = []
+    n = 32 if quick else 240
+    for i in range(n):
+        R = 1 + i % 4
+        P = [0, 1, 0, 2][(i // 4) % 4]
+        out.append({"kind": "obs", "obj": "buf", "payload": handoff.PAYLOADS["buf"][i % 5], "R": R, "P": P,
+                    "K": rnd.randint(3, 8) if P else 0, "limit": rnd.randint(1, 4),
+                    "MA": rnd.choice([6000, 20000, 40000]) if P == 0 else rnd.choice([0, 2000, 8000]),
+                    "block": rnd.choice([64, 512, 4096]), "calls": 2000000, "maxrec": 200,
+                    "pre": [0, 1, 3, 16][(i // 16) % 4] if i % 3 else 0, "cj": rnd.choice([0, 50, 400]), "seed": rnd.randint(1, 2 ** 30)})
+    return out
+
+
+def obs_guards(chk, execs, owners):
+    """Vacuity guards of the obs family, measured on the recordings: for every R = 1..4, with and without producers, all R
+    readers made calls whose windows overlap calls of the consumer (and of each other for R >= 2); back-pressure engaged
+    (a producer saw size() >= limit); the consumer consumed non-empty batches right after a non-empty poll."""
+    OBS = ("sizes", "empties", "size", "empty")
+    cov = {}
+    tot_calls = 0
+    for lines, sc in zip(execs, owners):
+        if sc.get("kind") != "obs" or not lines or lines[-1].get("k") != "End":
+            continue
+        win = {}                                     # (thread, inv line) -> (inv index, res index, record)
+        openc = {}
+        recs = []
+        for i, ln in enumerate(lines):
+            if ln.get("k") == "inv":
+                openc[ln["t"]] = i
+            elif ln.get("k") == "res":
+                recs.append((ln["t"], openc.pop(ln["t"]), i, ln["c"]))
+        obs = [r for r in recs if r[3]["op"] in OBS]
+        tot_calls += sum(r[3].get("cnt", 1) for r in obs)
+        readers = sorted({r[0] for r in obs if r[0] >= 9})
+        def ov(a, b):
+            return a[1] < b[2] and b[1] < a[2]
+        rc = sum(1 for a in obs if a[0] == 0 for b in obs if b[0] >= 9 and ov(a, b))
+        rr = sum(1 for a in obs if a[0] >= 9 for b in obs if b[0] > a[0] and ov(a, b))
+        bp = sum(1 for r in obs if 1 <= r[0] <= 8 and r[3]["op"] == "sizes" and r[3]["n"] >= sc["limit"])
+        cons = [r for r in recs if r[0] == 0]
+        polled = sum(1 for a, b in zip(cons, cons[1:]) if b[3]["op"] == "consume" and (b[3].get("batch") or b[3].get("runs"))
+                     and ((a[3]["op"] in ("empties", "empty") and not a[3]["b"]) or (a[3]["op"] in ("sizes", "size") and a[3]["n"] > 0)))
+        key = (sc["R"], "producers" if sc["P"] else "no-producer")
+        c = cov.setdefault(key, {"executions": 0, "all_readers_active": 0, "consumer_reader_overlaps": 0, "reader_reader_overlaps": 0,
+                                 "backpressure_waits": 0, "polled_nonempty_consumes": 0})
+        c["executions"] += 1
+        c["all_readers_active"] += 1 if len(readers) == sc["R"] else 0
+        c["consumer_reader_overlaps"] += rc
+        c["reader_reader_overlaps"] += rr
+        c["backpressure_waits"] += bp
+        c["polled_nonempty_consumes"] += polled
+    for R in (1, 2, 3, 4):
+        for kind in ("no-producer", "producers"):
+            c = cov.get((R, kind))
+            if not c or not c["all_readers_active"] or not c["consumer_reader_overlaps"] or (R >= 2 and not c["reader_reader_overlaps"]):
+                raise InfraError("vacuity guard: observers contending with observers not exercised for R=%d, %s: %s" % (R, kind, c))
+            if kind == "producers" and not c["polled_nonempty_consumes"]:
+                raise InfraError("vacuity guard: poll loop (non-empty poll, then consume) not exercised for R=%d: %s" % (R, c))
+    if not sum(c["backpressure_waits"] for c in cov.values()):
+        raise InfraError("vacuity guard: no producer ever waited on size() >= limit (back-pressure not exercised)")
+    chk.cov["observer_contention"] = {"R=%d,%s" % k: v for k, v in sorted(cov.items())}
+    chk.cov["observer_calls_recorded"] = tot_calls
+
+
 def conc_scenarios(rnd, quick, n_buf, n_val, maxP):
     out = []
     for i in range(n_buf):
@@ -270,7 +347,7 @@ def _classify(line):
         return line.get("during", "scenario"), k
     c = line.get("c", {})
     op = c.get("op", "?")
-    name = {"push": "push_back", "assign": "operator="}.get(op, op)
+    name = {"push": "push_back", "assign": "operator=", "sizes": "size", "empties": "empty"}.get(op, op)
     return name + "()", "result-not-explainable"
 
 
@@ -296,6 +373,10 @@ def count_ops(chk, executions):
                 op = "empty(true)" if c["b"] else "empty(false)"
             elif op == "size":
                 op = "size(0)" if c["n"] == 0 else "size(>0)"
+            elif op == "sizes":
+                op = "sizes(0)" if c["n"] == 0 else "sizes(>0)"
+            elif op == "empties":
+                op = "empties(true)" if c["b"] else "empties(false)"
             ac[op] = ac.get(op, 0) + 1
 
 
@@ -363,6 +444,10 @@ def run_and_validate(chk, exe, scenarios, tag, chunks, scenario_timeout=60, max_
 
 def report_rejection(chk, sc, lines, at):
     call, field = classify(lines[at], lines[:at])
+    if sc.get("kind") == "obs" and call.endswith("()"):
+        # argument class: the situation of the rejected call (labelling only; the rejection is TLC's)
+        pushing = sum(1 for l in lines[:at] if l.get("k") == "inv" and l["c"]["op"] == "push") > sc.get("pre", 0)
+        call = call[:-2] + "(%s)" % ("observers-contending,producers-throttled-by-size" if pushing else "observers-contending,no-producer")
     sig = "%s/%s/%s" % (handoff.api(sc), call, field)
     if sig not in chk._seen_sigs:
         # first rejection with this signature: re-check the single execution once before reporting it
@@ -430,9 +515,9 @@ def tsan_runs(chk, exe_tsan, scenarios, tag):
 # ---------------------------------------------------------------------------
 # non-vacuity of the trace specification, measured on this run's own recordings
 def corruption_selftest(chk, execs, owners):
-    def pick(obj, pred):
+    def pick(obj, pred, scpred=None):
         for lines, sc in zip(execs, owners):
-            if sc["obj"] == obj and lines and lines[-1].get("k") == "End" and pred(lines):
+            if sc["obj"] == obj and lines and lines[-1].get("k") == "End" and (scpred is None or scpred(sc)) and pred(lines):
                 return lines
         return None
 
@@ -480,6 +565,19 @@ def corruption_selftest(chk, execs, owners):
             c["n"] += 1000
         return ok
 
+    def consumer_empties_flipped(c, mode):
+        ok = c["op"] == "empties" and c["b"]
+        if ok and mode == "apply":
+            c["b"] = False
+        return ok
+
+    def sizes_nonzero(c, mode):
+        ok = c["op"] == "sizes" and c["n"] == 0
+        if ok and mode == "apply":
+            c["n"] = 1
+        return ok
+
+    noprod = lambda sc: sc.get("kind") == "obs" and sc["P"] == 0
     def stale_get(c, mode):
         ok = c["op"] == "get" and c["v"] >= 2
         if ok and mode == "apply":
@@ -494,10 +592,13 @@ def corruption_selftest(chk, execs, owners):
 
     tests = [("buf", "element removed from a batch", drop_elem), ("buf", "element duplicated in a batch", dup_elem),
              ("buf", "two elements of one producer swapped", swap_same_producer), ("buf", "size() result changed", wrong_size),
-             ("val", "get() result replaced by a value nobody assigned", stale_get), ("val", "update() result flipped", flip_update)]
+             ("val", "get() result replaced by a value nobody assigned", stale_get), ("val", "update() result flipped", flip_update),
+             ("buf", "one run of empty() answers turned into 'not empty' on a buffer nobody pushes to, readers contending", consumer_empties_flipped, noprod),
+             ("buf", "one run of size() answers turned into 1 on a buffer nobody pushes to, readers contending", sizes_nonzero, noprod)]
     def one(k):
-        obj, name, fn = tests[k]
-        base = pick(obj, lambda ls: any(l.get("k") == "inv" and fn(l["c"], "probe") for l in ls))
+        obj, name, fn = tests[k][:3]
+        scpred = tests[k][3] if len(tests[k]) > 3 else None
+        base = pick(obj, lambda ls: any(l.get("k") == "inv" and fn(l["c"], "probe") for l in ls), scpred)
         if base is None:
             raise InfraError("corruption self-test: no recorded %s execution suitable for '%s'" % (obj, name))
         bad = mutate(base, fn)
@@ -532,6 +633,12 @@ def run(chk, replay=None):
         "elements in C++11), std::string (small-buffer, heap, NUL and >= 0x80 bytes, 300 characters), move-only unique_ptr (buffer only), a type whose copy throws",
         "a call that ended with an exception thrown by the payload's copy may count as made or as not made (the statement does not say)",
         "several consumers, self-referential pushes and get()/ref() from the producer side are outside the documented usage and not exercised",
+        "observers: 1..4 reader threads + the consumer + up to 2 producers inside size()/empty() at once; calls are recorded in run-length form "
+        "(consecutive equal answers of one thread = one record, explained by one observer step within the run's window: a necessary condition, "
+        "exact while no push_back is open); TransactionalValue has no accessor that may be called by several threads at once (get()/ref() take no "
+        "lock and belong to the one consumer), so it has no such family",
+        "poll loop: a consume() of the consumer directly after its own empty() = false / size() > 0 must return a non-empty batch (the header's "
+        "'take all contents', weakest consequence; clause BConsumePolled_)",
     ]
     if replay:
         return do_replay(chk, replay)
@@ -584,7 +691,11 @@ def run(chk, replay=None):
     bconc = burst_conc_scenarios(rnd, quick)
     execs_bc, owners_bc, rej_bc = run_and_validate(chk, exe, bconc, "c12-burst-conc", chunks=8)
     count_ops(chk, execs_bc)
-    clean = not (rej or rej_s or rej_b or rej_bc or rej_ht or rej_hm or rej_hf)       # code that violates the contract may legitimately skew what was exercised: guards only on clean runs
+    # ... and observers contending with observers (reader threads; zero producers / producers throttled by size())
+    obs = obs_scenarios(rnd, quick)
+    execs_o, owners_o, rej_o = run_and_validate(chk, exe, obs, "c12-obs", chunks=8)
+    count_ops(chk, execs_o)
+    clean = not (rej or rej_s or rej_b or rej_bc or rej_ht or rej_hm or rej_hf or rej_o)       # code that violates the contract may legitimately skew what was exercised: guards only on clean runs
     if clean and chk.cov["concurrent_executions_with_overlapping_calls"] < len(owners_c) // 4:
         raise InfraError("vacuity guard: only %d of %d concurrent executions contain overlapping calls" % (chk.cov["concurrent_executions_with_overlapping_calls"], len(owners_c)))
     if clean:
@@ -592,14 +703,16 @@ def run(chk, replay=None):
                              "assign", "update(true)", "update(false)", "get"])
     if clean:
         burst_guards(chk, execs_b, owners_b, execs_bc, owners_bc)
+        obs_guards(chk, execs_o, owners_o)
+        chk.require_actions(["sizes(0)", "sizes(>0)", "empties(true)", "empties(false)"])
         chk.require_actions(["pushx(threw)", "assignx(threw)"])
         # every payload type in every family of executions; start states; several instances
-        fams = {"seq": owners_s, "burst-seq": owners_b, "conc": owners_c, "burst-conc": owners_bc, "multi": owners_hm}
+        fams = {"seq": owners_s, "burst-seq": owners_b, "conc": owners_c, "burst-conc": owners_bc, "multi": owners_hm, "obs": owners_o}
         if exe_probe is not None:
             fams["from"] = owners_hf
         for fam, ow in fams.items():
             for obj in ("buf", "val"):
-                if fam == "from" and obj == "buf":
+                if (fam == "from" and obj == "buf") or (fam == "obs" and obj == "val"):
                     continue
                 missing = [pl for pl in handoff.PAYLOADS[obj] if not any(sc["obj"] == obj and sc["payload"] == pl for sc in ow)]
                 if missing:
@@ -611,9 +724,9 @@ def run(chk, replay=None):
         chk.cov["payload_types"] = handoff.PAYLOADS
         chk.cov["concurrent_start_states"] = sorted("%s:pre=%d" % p for p in pres)
         chk.cov["executions_by_instance_of_multi_object_histories"] = len(owners_hm)
-    allx = execs_s + execs_c + execs_b + execs_bc + execs_ht + execs_hm + execs_hf
+    allx = execs_s + execs_c + execs_b + execs_bc + execs_ht + execs_hm + execs_hf + execs_o
     distinct = {}
-    for lines, sc in zip(allx, owners_s + owners_c + owners_b + owners_bc + owners_ht + owners_hm + owners_hf):
+    for lines, sc in zip(allx, owners_s + owners_c + owners_b + owners_bc + owners_ht + owners_hm + owners_hf + owners_o):
         nontrivial = any(l.get("k") == "inv" and l["c"]["op"] in ("push", "assign") for l in lines)
         if nontrivial:
             distinct[handoff.digest(lines)] = 1
@@ -623,7 +736,7 @@ def run(chk, replay=None):
                        "(b) seeded concurrent scenarios (threads, pushes, consumer calls, jitter drawn from VERIF_SEED); "
                        "distinct = distinct merged inv/res line sequences (stamps order + arguments + results); non-trivial = contains a push or an assignment")
     if clean:
-        corruption_selftest(chk, execs_c, owners_c)
+        corruption_selftest(chk, execs_c + execs_o, owners_c + owners_o)
     k = next((i for i, sc in enumerate(owners_c) if sc["obj"] == "buf" and sc.get("_overlaps", 0) > 0), 0)
     chk.add_sample({"kind": "recorded-execution", "scenario": {a: b for a, b in owners_c[k].items() if not a.startswith("_")}, "lines": execs_c[k][:24]})
     k = next((i for i, sc in enumerate(owners_c) if sc["obj"] == "val" and sc.get("_overlaps", 0) > 0), 0)
@@ -637,6 +750,7 @@ def run(chk, replay=None):
         step += 1 if step % 5 == 0 else 0          # payload types cycle with period 5
         return xs[::step][:n]
     sub = spread([sc for sc in conc if sc["obj"] == "buf"], n_t[0]) + spread([sc for sc in conc if sc["obj"] == "val"], n_t[1])
+    sub += obs[:8 if quick else 40]          # reader threads under ThreadSanitizer as well (R = 1..4, with and without producers)
     sub = [{a: b for a, b in sc.items() if not a.startswith("_")} for sc in sub]
     n_abn = tsan_runs(chk, exe_tsan, sub, "c12-tsan")
     chk.cov["model_predicts_race_in_TransactionalValue_as_written"] = False
